@@ -320,37 +320,44 @@ func reentrant(r *lib.Report, tier string) (int64, int64, []interface{}) {
 			}
 		}
 	}
-	// Map chains: fn(v) reaches every subscriber of the derived publisher exactly once per origin value
+	// Map chains: a value published on ANY stage of a chain reaches every subscriber of every later stage
+	// exactly once, transformed by exactly the functions between the two stages, and no earlier stage
 	for hops := 1; hops <= 3; hops++ {
 		for nsub := 1; nsub <= 2; nsub++ {
 			trans++
-			origin := fpgo.PublisherNewGenerics[int]()
-			cur := origin
+			stages := []*fpgo.PublisherDef[int]{fpgo.PublisherNewGenerics[int]()}
 			for h := 0; h < hops; h++ {
 				k := (h + 1) * 1000
-				cur = cur.Map(func(v int) int { return v + k })
+				stages = append(stages, stages[h].Map(func(v int) int { return v + k }))
 			}
-			var got [2][]int
-			for s := 0; s < nsub; s++ {
-				s := s
-				cur.Subscribe(fpgo.Subscription[int]{OnNext: func(v int) { got[s] = append(got[s], v) }})
-			}
-			var direct []int
-			origin.Subscribe(fpgo.Subscription[int]{OnNext: func(v int) { direct = append(direct, v) }})
-			origin.Publish(1)
-			origin.Publish(2)
-			add := 0
-			for h := 0; h < hops; h++ {
-				add += (h + 1) * 1000
-			}
-			want := fmt.Sprint([]int{1 + add, 2 + add})
-			for s := 0; s < nsub; s++ {
-				if fmt.Sprint(got[s]) != want {
-					r.Violation("C10|map|value", fmt.Sprintf("%d Map hop(s): derived subscriber %d received %v, expected %s", hops, s, got[s], want), map[string]interface{}{"hops": hops, "got": got[s]})
+			got := make([][][]int, len(stages)) // per stage, per subscriber
+			for si, st := range stages {
+				got[si] = make([][]int, nsub)
+				for sub := 0; sub < nsub; sub++ {
+					si, sub := si, sub
+					st.Subscribe(fpgo.Subscription[int]{OnNext: func(v int) { got[si][sub] = append(got[si][sub], v) }})
 				}
 			}
-			if fmt.Sprint(direct) != "[1 2]" {
-				r.Violation("C10|map|origin", fmt.Sprintf("origin subscriber received %v", direct), nil)
+			want := make([][]int, len(stages))
+			for from := len(stages) - 1; from >= 0; from-- { // also publish on the inner stages first
+				for _, v := range []int{10*from + 1, 10*from + 2} {
+					stages[from].Publish(v)
+					acc := v
+					for j := from; j < len(stages); j++ {
+						if j > from {
+							acc += j * 1000
+						}
+						want[j] = append(want[j], acc)
+					}
+				}
+			}
+			for si := range stages {
+				for sub := 0; sub < nsub; sub++ {
+					if fmt.Sprint(got[si][sub]) != fmt.Sprint(want[si]) {
+						r.Violation("C10|map|value", fmt.Sprintf("chain of %d Map hop(s), values published on every stage (last stage first): subscriber %d of stage %d received %v, expected %v", hops, sub, si, got[si][sub], want[si]),
+							map[string]interface{}{"hops": hops, "stage": si, "got": got[si][sub], "want": want[si]})
+					}
+				}
 			}
 			states++
 		}
